@@ -809,6 +809,10 @@ class BaseBackend(CodeGen):
         from scipy.integrate import solve_ivp
         kwargs['t_eval'] = times
 
-        # call scipy solver
-        results = solve_ivp(fun=func, t_span=(t0, T), y0=y, first_step=dt, args=args, **kwargs)
+        # call scipy solver. The generated function may return the same in-place `dy` buffer on every call, whereas
+        # scipy's integrators keep references to returned derivatives (e.g. for DOP853's dense output): hand out copies.
+        def rhs(t_, y_, *args_):
+            return np.array(func(t_, y_, *args_))
+
+        results = solve_ivp(fun=rhs, t_span=(t0, T), y0=y, first_step=dt, args=args, **kwargs)
         return results['y'].T
